@@ -40,7 +40,7 @@ ShimOp(v, e) ==
    CASE e.op = "reset" -> SV0
      \* after a crash the shim re-submits what it knows: every key is outstanding again until the new core announces it
      [] e.op = "restart" -> [SV0 EXCEPT !.keys = [k \in DOMAIN e.asks |-> "out"], !.kapp = [k \in DOMAIN e.asks |-> e.asks[k].app]]
-     [] e.op \in {"addAsk", "reportBound", "updateAsk"} ->
+     [] e.op \in {"addAsk", "reportBound", "updateAsk"} \/ (e.op = "bad" /\ e.kind = "ask.nilpolicy") ->   \* (unusual but meaningful ask)
             IF e.key \in DOMAIN v.keys THEN v
             ELSE [v EXCEPT !.keys = Upd(v.keys, e.key, "out"), !.kapp = Upd(v.kapp, e.key, e.app)]
      \* releasing an ask that is still outstanding ends it at once (the core sends nothing); releasing a bound allocation
@@ -48,6 +48,11 @@ ShimOp(v, e) ==
      [] e.op = "release" -> IF e.key \in DOMAIN v.keys /\ v.kapp[e.key] = e.app
                             THEN (IF v.keys[e.key] = "out" THEN [v EXCEPT !.keys = Del(v.keys, {e.key})] ELSE [v EXCEPT !.keys = Upd(v.keys, e.key, "relReq")])
                             ELSE v
+     \* a release without a key gives up everything of the application: outstanding asks end at once, bound allocations
+     \* are answered by release announcements
+     [] e.op = "releaseAll" ->
+            LET mine == {k \in DOMAIN v.keys : v.kapp[k] = e.app} IN
+            [v EXCEPT !.keys = [k \in DOMAIN v.keys \ {k \in mine : v.keys[k] = "out"} |-> IF k \in mine THEN "relReq" ELSE v.keys[k]]]
      [] e.op = "confirm" -> IF ~e.none /\ ~e.keep /\ e.key \in DOMAIN v.keys /\ v.keys[e.key] = "relAnn" THEN [v EXCEPT !.keys = Del(v.keys, {e.key})] ELSE v
      [] e.op = "removeApp" ->
             LET mine == {k \in DOMAIN v.keys : v.kapp[k] = e.app} IN
@@ -168,12 +173,37 @@ C01_ReplaceStep == \A m \in ReplRels :
                /\ <<rk, nr>> \notin den
                /\ (real.reqNode # "" => real.reqNode = nr)
                /\ rk \in KeysOn(Post, nr)
+\* replacement decided in place (same node): nothing is re-checked against the node, which is only sound when the real
+\* allocation is no larger than the placeholder it takes over from, or the node has the room for the difference anyway
+C01_ReplaceInPlace == \A m \in ReplRels :
+      (m.app \in AppsOf(Pre) /\ m.app \in AppsOf(Post) /\ m.key \in DOMAIN Pre.apps[m.app].allocs /\ m.key \in DOMAIN Post.apps[m.app].allocs) =>
+         LET ph == Pre.apps[m.app].allocs[m.key]
+             rk == Post.apps[m.app].allocs[m.key].rel IN
+         (rk \in DOMAIN Post.apps[m.app].asks /\ rk \in DOMAIN Pre.apps[m.app].asks) =>
+            LET nr == Post.apps[m.app].asks[rk].node
+                real == Pre.apps[m.app].asks[rk] IN
+            (nr = ph.node /\ nr \in NodesOf(Pre)) =>
+               \/ \A t \in DOMAIN real.res : real.res[t] <= Get(ph.res, t)
+               \/ FitIn(RAdd(RealAvail(Pre, nr), ph.res), real.res)
 
 (* ====================================================================== C02 *)
 C02_Step == \A m \in SchedAllocs : m.app \in AppsOf(Pre) =>
       \A q \in Ancestors(Pre, Pre.apps[m.app].queue) :
          IF q = "root" THEN FitIn(Pre.queues[q].max, RAdd(Pre.queues[q].alloc, PreAsk(Pre, m).res))
          ELSE ~Pre.queues[q].hasMax \/ FitInMaxUndef(Pre.queues[q].max, RAdd(Pre.queues[q].alloc, PreAsk(Pre, m).res))
+\* a placeholder replacement is a scheduling decision as well: it is taken without any queue check, which is only sound when
+\* the real allocation is no larger than the placeholder, or every queue on the path has the room for the difference
+C02_ReplaceStep == \A m \in ReplRels :
+      (m.app \in AppsOf(Pre) /\ m.app \in AppsOf(Post) /\ m.key \in DOMAIN Pre.apps[m.app].allocs /\ m.key \in DOMAIN Post.apps[m.app].allocs) =>
+         LET ph == Pre.apps[m.app].allocs[m.key]
+             rk == Post.apps[m.app].allocs[m.key].rel IN
+         rk \in DOMAIN Pre.apps[m.app].asks =>
+            LET real == Pre.apps[m.app].asks[rk] IN
+            \/ \A t \in DOMAIN real.res : real.res[t] <= Get(ph.res, t)
+            \/ \A q \in Ancestors(Pre, Pre.apps[m.app].queue) :
+                  LET after == RAdd(RSub(Pre.queues[q].alloc, ph.res), real.res) IN
+                  IF q = "root" THEN FitIn(Pre.queues[q].max, after)
+                  ELSE ~Pre.queues[q].hasMax \/ FitInMaxUndef(Pre.queues[q].max, after)
 C02_Headroom == HeadroomChain(St(l))
 C02_RootMax == RootMax(St(l))
 C02_Usage == UsageWithinMax(St(l), fQ)
@@ -251,6 +281,14 @@ C06_ConfirmStep == IsReplConfirm =>
             /\ rk \in DOMAIN Post.apps[E.app].allocs
             /\ Post.apps[E.app].allocs[rk].allocated /\ ~Post.apps[E.app].allocs[rk].ph
             /\ Cardinality({i \in 1..Len(E.msgs) : E.msgs[i].t = "alloc" /\ E.msgs[i].key = rk}) = 1
+            \* usage reflects the real allocation: exactly the placeholder is taken out and the real allocation put in
+            /\ LET real == Pre.apps[E.app].asks[rk]
+                   Swap(r) == RAdd(RSub(r, ph.res), real.res) IN
+               /\ \A q \in Ancestors(Pre, leaf) : q \in QueuesOf(Post) => REq(Post.queues[q].alloc, Swap(Pre.queues[q].alloc))
+               /\ REq(RAdd(Post.apps[E.app].alloc, Post.apps[E.app].phAlloc), Swap(RAdd(Pre.apps[E.app].alloc, Pre.apps[E.app].phAlloc)))
+               /\ (ph.node \in NodesOf(Pre) /\ ph.node \in NodesOf(Post)) =>
+                     REq(Post.nodes[ph.node].alloc, IF real.node = ph.node THEN Swap(Pre.nodes[ph.node].alloc) ELSE RSub(Pre.nodes[ph.node].alloc, ph.res))
+               /\ (real.node # ph.node /\ real.node \in NodesOf(Pre) /\ real.node \in NodesOf(Post)) => REq(Post.nodes[real.node].alloc, Pre.nodes[real.node].alloc)
 \* placeholder timeout before any real allocation
 C06_TimeoutStep == (Step /\ E.op = "firePhTimer" /\ E.armed /\ E.panic = "" /\ E.app \in AppsOf(Pre)) =>
       LET ap == Pre.apps[E.app]
@@ -363,7 +401,7 @@ C16_DrainingNoNewApps == (Step /\ E.op = "addApp") =>
           \E m \in Msgs(l) : m.t = "appRejected" /\ m.app = E.app)
 \* queues disappear only in a cleaner pass, and only empty draining/dynamic ones
 C16_Removal == Step => \A q \in QueuesOf(Pre) \ QueuesOf(Post) :
-      /\ E.op \in {"cleanQueues", "restart", "removeApp", "fireStateTimer", "confirm", "release", "removeNode", "schedule", "firePhTimer"}
+      /\ E.op \in {"cleanQueues", "restart", "removeApp", "fireStateTimer", "confirm", "release", "releaseAll", "removeNode", "schedule", "firePhTimer"}
       /\ (Pre.queues[q].status = "Draining" \/ ~Pre.queues[q].managed)
       /\ RZero(Pre.queues[q].alloc) /\ RZero(Pre.queues[q].pending)
       /\ (E.op = "cleanQueues" => \A a \in AppsOf(Pre) : Pre.apps[a].queue # q)
@@ -539,8 +577,8 @@ KFAll == /\ KFHit("KF-C01-REQNODE-UNSCHED", KF_ReqNodeUnsched)
 (* ====================================================================== reporting *)
 Chk(name, cond) == cond \/ PrintT(<<"FAIL", name, l>>)
 All == /\ KFAll
-       /\ Chk("C01_NodeLedger", C01_NodeLedger) /\ Chk("C01_AvailNonNeg", C01_AvailNonNeg) /\ Chk("C01_Step", C01_Step) /\ Chk("C01_ReplaceStep", C01_ReplaceStep)
-       /\ Chk("C02_Step", C02_Step) /\ Chk("C02_Headroom", C02_Headroom) /\ Chk("C02_RootMax", C02_RootMax) /\ Chk("C02_Usage", C02_Usage) /\ Chk("C02_NoSilentGrowth", C02_NoSilentGrowth)
+       /\ Chk("C01_NodeLedger", C01_NodeLedger) /\ Chk("C01_AvailNonNeg", C01_AvailNonNeg) /\ Chk("C01_Step", C01_Step) /\ Chk("C01_ReplaceStep", C01_ReplaceStep) /\ Chk("C01_ReplaceInPlace", C01_ReplaceInPlace)
+       /\ Chk("C02_Step", C02_Step) /\ Chk("C02_ReplaceStep", C02_ReplaceStep) /\ Chk("C02_Headroom", C02_Headroom) /\ Chk("C02_RootMax", C02_RootMax) /\ Chk("C02_Usage", C02_Usage) /\ Chk("C02_NoSilentGrowth", C02_NoSilentGrowth)
        /\ Chk("C03_AppLedger", C03_AppLedger) /\ Chk("C03_QueueLedger", C03_QueueLedger) /\ Chk("C03_RootVsNodes", C03_RootVsNodes) /\ Chk("C03_NoOrphans", C03_NoOrphans)
        /\ Chk("C03_Counters", C03_Counters) /\ Chk("C03_Preempting", C03_Preempting) /\ Chk("C03_Drained", C03_Drained)
        /\ Chk("C04_Legal", C04_Legal) /\ Chk("C04_RejectedNoTrace", C04_RejectedNoTrace)
